@@ -203,6 +203,13 @@ def shapes(tier):
                       "G::A(Nothing)", "[b'9']", "`bound(..)` written on the enum reaches the impl (non-Display derive)", quick=False))
     out.append(gshape("debug_explicit_bound_enum_level", DB + '#[debug(bound(T: Tagged))]\npub enum G<T> {\n    #[debug("{}", _0.tagged())]\n    A(T),\n    B,\n}', "Debug",
                       "G::A(Nothing)", "[b'9']", "Debug: `bound(..)` written on the enum reaches the impl", exercises=["impl/src/fmt/debug.rs::Expansion::generate_bounds"]))
+    # the item is produced by macro_rules!: a `$t:ty` fragment reaches the derive as syn::Type::Group around the type that mentions the parameter
+    out.append(gshape("macro_rules_ty_fragment", 'macro_rules! mk { ($t:ty, $u:ty) => { #[derive(derive_more::Display)]\n#[display("{a}{b:?}")]\npub struct G<T, U> { pub a: $t, pub b: [$u; 1] } }; }\nmk!(T, U);', "Display",
+                      "G { a: OnlyDisplay(i), b: [OnlyDebug(j)] }", "[b'D', b'a' + i, b'[', b'?', b'a' + j, b']']",
+                      "field types pasted through `$t:ty` (Type::Group) still mention the type parameters", exercises=["impl/src/fmt/mod.rs::ContainsGenericsExt"]))
+    out.append(gshape("macro_rules_ty_fragment_debug", 'macro_rules! mk { ($t:ty) => { #[derive(derive_more::Debug)]\npub struct G<T>(pub $t, pub Option<$t>); }; }\nmk!(T);', "Debug",
+                      "G(OnlyDebug(i), None)", "[b'G', b'(', b'?', b'a' + i, b',', b' ', b'N', b'o', b'n', b'e', b')']",
+                      "Debug: field types pasted through `$t:ty`", exercises=["impl/src/fmt/mod.rs::ContainsGenericsExt", "impl/src/fmt/debug.rs::Expansion::generate_bounds"]))
     out = [x for x in out if x.name != "c04_enum_shared_with_field"]
     if tier == "quick":
         out = [s for s in out if s.quick]
